@@ -218,6 +218,7 @@ class SymCtx(_Base):
         c = z3.BoolVal(False) if cond is False else bterm(cond)
         r = eng._check(z3.Not(c))
         if r == z3.unsat:
+            eng.second_opinion(label, z3.Not(c), "unsat")
             eng.res.discharged += 1
             return
         if r == z3.unknown:
